@@ -3,6 +3,21 @@
 TECH = 'TLA+ specification model-checked by TLC; '
 
 CHECKS = {
+    'C12': dict(
+        text='FxIndex.tla states NumPy indexing x[items] as an exact selection map (output shape and, for every output position, '
+             'the input position) for tuples of integers, slices (steps 1, 2, -1, None bounds), one ellipsis and one array-like item '
+             '(integer array of rank 1-2 with negative and repeated entries, or boolean mask of rank 1-2) including NumPy\'s '
+             'adjacency rule for integers next to an array, and transcribes IndexOperator\'s own logic (unique_indices, indexed_axes, '
+             'reduce, IndexTransposeRule, TransposeIndexRule with its multiplicity diagonal). MC_Index builds every legal expression '
+             'of <= 3 items per leaf shape and checks: derived unique flag => no input selected twice, P@P.T rewritten only then, '
+             'P.T@P diagonal = true multiplicities, indexed_axes = the non-full entries, reduce() to identity only for the identity '
+             'selection. Replay: IndexOperator built with and without out_structure over a leaf, a list of leaves and a Stokes '
+             'container: mv = selection, transpose = scatter-add, attributes, both products reduced (class and dense matrix), '
+             'PackOperator = indexing by the mask; NumPy is consulted as a second reference.',
+        note='One array-like item per expression in the TLA+ reference; leaf rank <= 3 with dims 2..3; a missed simplification '
+             'is recorded as information, only unsound ones are violations.',
+        technique=TECH + 'exact selection maps replayed on the real IndexOperator/PackOperator and their reduced products',
+        design_ref='DESIGN.md §4 C12'),
     'C02': dict(
         text='MC_Arith.tla runs sessions of one or two dunder calls (@, +, -, unary -, unary +, k*A, A*k, A/k) over 18 operands of '
              'every kind (plain operators, a composition, a sum, identities, scalar operators, lazy inverses next to their own '
